@@ -117,6 +117,10 @@ def pdks():
         for tbl in (gfd.default_xtor_size, gfd.default_res_size, gfd.default_diode_size):
             if modname in tbl:
                 return tbl[modname]
+        if any(m.name == modname for m in gfd.caps.values()):
+            # capacitors have no size table: the PDK's defaults are those of the device's parameter class
+            pd = importlib.import_module("gf180_hdl21.pdk_data").GF180CapParams.default_instance()
+            return (pd.c_width, pd.c_length)
         return None
 
     out["sky130"] = {"module": sk, "compile": sk.compile, "table": tables(skd, True), "xtors": skd.xtors, "defaults": sky_defaults,
@@ -245,6 +249,11 @@ def judge_device(rec, pname, P, entry, sizes):
     if not isinstance(x.of, h.ExternalModuleCall):
         rec.violation("mapped-primitive-not-replaced", f"[{label}] instance of {prim.name} was not replaced by a PDK device", case=case, pdk=pname)
         return
+    import re as _re
+
+    if not _re.match(r"^[A-Za-z_][A-Za-z0-9_]*$", x.of.module.name or ""):
+        rec.violation("device-name-malformed", f"[{label}] the selected device is called {x.of.module.name!r}, which is not a device name any netlist format can carry",
+                      case=case, pdk=pname, device_kind=kind)
     if x.of.module is not mod:
         rec.violation("wrong-device-selected", f"[{label}] compile selected {x.of.module.name}, the table entry {model or key} is {mod.name}",
                       case=case, pdk=pname, device_kind=kind)
@@ -520,7 +529,7 @@ def judge_compile_forms(rec, allp):
     saved = (set(mgr.modules), dict(mgr.names), mgr.default)
     try:
         P = allp["sample"]
-        for form in ("by-module", "by-name", "default-single", "default-set", "default-ambiguous", "single-then-second"):
+        for form in ("by-module", "by-name", "default-single", "default-set", "default-ambiguous", "single-then-second", "by-package-then-default"):
             rec.count("pdk-compile-forms.checked")
             case = {"kind": "compile-form", "form": form}
             rec.case(key=f"form:{form}", nontrivial=True, sample=case)
@@ -542,6 +551,17 @@ def judge_compile_forms(rec, allp):
                     for q in allp.values():
                         hp.register(q["regmod"])
                     hp.set_default(P["regmod"])
+                    hp.compile(top)
+                elif form == "by-package-then-default":
+                    # naming the PDK's PACKAGE for one call (its inner module is the registered one) leaves the sole default usable
+                    mgr.modules.clear()
+                    mgr.names.clear()
+                    mgr.default = None
+                    hp.register(P["regmod"])
+                    hp.compile(top, pdk=P["module"])
+                    if not isinstance(leaf.instances["x"].of, h.ExternalModuleCall):
+                        rec.violation("pdk-compile-form-no-effect:by-package", "hdl21.pdk.compile(pdk=<package>) did not compile the design", case=case, form=form)
+                    top, leaf = design()
                     hp.compile(top)
                 elif form == "single-then-second":
                     # one PDK registered and used by default; then a second one is registered (imported): the default is ambiguous
